@@ -305,7 +305,8 @@ def run_format(signed, bits, frac, acc, floats=None):
         # beyond both ends)
         for x, w in zip(fl, refs):
             for a in (np.array([x], dtype=np.float64),
-                      np.array([[0.0, x]], dtype=np.float64)):
+                      np.array([[0.0, x]], dtype=np.float64),
+                      np.array(x, dtype=np.float64)):     # zero-dimensional
                 acc.evaluations += 1
                 try:
                     with warnings.catch_warnings():
